@@ -575,6 +575,18 @@ func simulateMaintenanceLoop(p *Prog, fn *ssa.Function, connectOK func(call ssa.
 		}
 	}
 	s.OnInstr = func(st *State, in ssa.Instruction) {
+		// a loop-state struct built by the loop function starts with zero values: its flags are false
+		if al, ok := in.(*ssa.Alloc); ok && kt != nil {
+			if elem := al.Type().Underlying().(*types.Pointer).Elem(); namedOf(elem) == kt {
+				if stt, ok := elem.Underlying().(*types.Struct); ok {
+					for i := 0; i < stt.NumFields(); i++ {
+						if b, ok := stt.Field(i).Type().Underlying().(*types.Basic); ok && b.Kind() == types.Bool {
+							st.cells[stt.Field(i)] = avBool(false)
+						}
+					}
+				}
+			}
+		}
 		if in != header.Instrs[0] {
 			return
 		}
